@@ -28,7 +28,7 @@ CFG = dict(
                   "the data files are modelled as record counts per (run directory, channel, type): record CONTENT is C05's subject; a file with no "
                   "record is not distinguished from no file (lazy creation is not part of the statement)",
                   "os/bufio/asyncbufio: a flush makes everything written so far visible on disk (queue overflow is C07's subject; cases publish at most ~100 records between flushes)"],
-    assumptions=["I/O failures inside START/STOP (mkdir, create) are outside the property's quantifier",
+    assumptions=["of the I/O failures inside START only 'the run directory cannot be made' is in the histories (a base path below a regular file, 9% of the STARTs; base path 2 of the model's `blocked` list); file-creation failures after the directory exists are outside the quantifier",
                  "one channel per pixel (channelsPerPixel = 1, the AnySource default); pixel coordinates in file headers are C05's subject; record lengths are not changed while writing",
                  "the map a request is judged against is the one the server holds when it arrives (a map error also unloads the map: observed, not modelled)",
                  "a channel is OFF-eligible iff it had projectors when the START was accepted (projectors loaded later do not open a file)"],
@@ -61,4 +61,5 @@ THEOREMS = [
     ("DastardV.Props.C06", "DastardV.C06.C06_stop_closes_all"),
     ("DastardV.Props.C06", "DastardV.C06.C06_bad_map_refused"),
     ("DastardV.Props.C06", "DastardV.C06.C06_source_end_stops_writing"),
+    ("DastardV.Props.C06", "DastardV.C06.C06_uncreatable_path_refused"),
 ]
